@@ -156,6 +156,9 @@ def run_case(ctx, case, truth):
 
 
 def run(ctx, tier, seed, shard, nshards):
+    import sys
+
+    sys.setrecursionlimit(60000)  # once, before Hypothesis starts; worker threads get a 256 MB stack
     n = N_QUICK if tier == "quick" else N_THOROUGH
     active = getattr(ctx, "active_known", set())
 
@@ -195,6 +198,9 @@ def run(ctx, tier, seed, shard, nshards):
 
 
 def replay(ctx, case):
+    import sys
+
+    sys.setrecursionlimit(60000)
     truth = {int(k): v for k, v in case["truth"].items()}
     res = run_case(ctx, case, truth)
     if res is not None:
